@@ -94,6 +94,11 @@ CLAIMED["C17"] = dict(
     text="Every specification of up to 3 parts (thorough 4) over {N#, N%, rest} with N from boundary sets, for treebank sizes 0..12 and 50/100/200/300 (thorough 0..60), and every single percentage 0..100 for sizes 0..300, is given to parse_split_specification and compared with integer arithmetic (absolute sizes exact, percentages rounded down, remainder to rest or the first largest part, sum = size, over-demand and malformed specifications rejected). Through the real command line, corpora of 0..7 sentences are split into every output format with and without filter_by_length: exactly k part files, each a complete file that the independent decoder and the repository's own reader accept, with the reference sizes, and their concatenation equals the decoded unsplit conversion.",
     note="Trusted: reference arithmetic in checks/C17.py, decoders in vlib/codecs_tree.py. Rejection may use any exception; negative numbers are not generated.",
     ref="DESIGN.md section 2, C17")
+CLAIMED["C03"] = dict(
+    tech="Hypothesis corpora x all 4x5 format pairs x encodings/gzip/directory mode through the real `treetools transform` entry point (subprocess and in-process runpy); round-trip A->B->A and differential between independent decoders and the repository's own readers",
+    text="Corpora written by the independent encoders in each source format (utf-8, latin-1, utf-16; plain or .gz; file or directory) are converted by the real command into each destination format with drawn encodings and inverse option pairs; the exit status must be 0 whenever the destination can represent the trees, the destination decoded by the independent decoders must equal the source model projected on what both formats carry (sentence ids, order, words, POS, lemma, morphology, edges, labels, dominance), the repository's own reader must read the destination identically, and converting back must give the projection of the original. A few corpora of 60 sentences guard against size-dependent truncation.",
+    note="Trusted: encoders/decoders in vlib/codecs_tree.py, model-level read/write projection in checks/C03.py. Quick tier: ~12% of the conversions as subprocesses, the rest through runpy in-process (same script, same main); thorough: all subprocesses.",
+    ref="DESIGN.md section 2, C03")
 PENDING_REASON = "check not built yet in this round (planned, see DESIGN.md section 6); not claimed until it is quiet on the unchanged tree"
 
 
